@@ -10,6 +10,20 @@ BASE = ("cd /repo && env -u TRACKLIB_VERIF_TRACE /venv/bin/python -m pytest -ra 
 
 # pid -> (module(s), technique, level text, level note, design ref)
 CHECKS = {
+    "C06": ("Routing", "TLA+ model: Bellman-Ford definition + the implementation's Dijkstra/lazy-heap as a state machine (all pop "
+            "orders) checked by TLC; distance tables of every enumerated multigraph replayed on Network (spec->code); random "
+            "graphs judged by RoutingTrace.tla (code->spec)",
+            "TLC shows algorithm = definition on all multigraphs with 3 nodes / <= 3 edges (weights 0-2, three orientations, "
+            "loops, parallel edges) for every source and pop order; the same 91 881 graphs are built through Network.addEdge and "
+            "pair / list / all-pairs (5 cut-offs) / prepared distances compared with the model's table, key sets included; "
+            "random graphs to 12 nodes / 40 edges with cut-offs are validated by TLC.",
+            "TLC 1.8; integer weights; A* mode not covered", "5/C06"),
+    "C07": ("Routing", "acceptance predicate AcceptPath (Routing.tla) evaluated by TLC on every path recorded from "
+            "Network.shortest_path (code->spec trace validation); graph family enumerated by TLC",
+            "every ordered pair of every multigraph with 3 nodes / <= 3 edges (551 286 recorded calls) and of random graphs to 12 "
+            "nodes / 40 edges: node list, per-hop edge identified through the returned geometry (orientation, junctions not "
+            "repeated), summed weight = Bellman-Ford distance, None iff unreachable.",
+            "TLC 1.8; each edge carries a 4-vertex geometry whose interior vertices identify it", "5/C06, C07"),
     "C04": ("TrackSeq", "TLA+ definitions of the sequence operators + transcription of the insertion binary search, enumerated by "
             "TLC; designated positions replayed on real tracks (spec->code), sort/insert judged by TrackSeqTrace.tla (code->spec)",
             "TLC enumerates every timestamp sequence of length 0..5 (thorough 6) over a 5-value domain and, for each, every "
